@@ -1,7 +1,6 @@
 package verifsim
 
 func genMaintenance(r *rng, i int) *Spec  { return genSmoke(r) }
-func genOptimization(r *rng, i int) *Spec { return genSmoke(r) }
 
 
 func (s *Sim) pilotCall(owner, key string) {}
